@@ -73,6 +73,7 @@ type loaded struct {
 	unl     *big.Int
 	cdp     []string
 	entries []crlgen.Entry
+	others  []string
 }
 
 func (s *scn) load(backend string, n int, strict bool, configured bool) (*loaded, error) {
@@ -109,7 +110,27 @@ func (s *scn) load(backend string, n int, strict bool, configured bool) (*loaded
 			return nil, fmt.Errorf("setup: listed certificate not rejected after load (rev=%v err=%v)", rev, err)
 		}
 	}
+	// the faulted CRL is one of several the repository knows (the lookup walks all of them in no
+	// particular order): two more healthy CRLs from other distribution points
+	for k := 0; k < 2; k++ {
+		p := fmt.Sprintf("%s.other%d", l.path, k)
+		s.w.CRL.Set(p, origin.Good(gen.SpecFor(s.w.Int, gen.Entries(s.rng, gen.Opts{N: 5, SerialWidth: 7})).Build(s.w.Int.Key).DER))
+		_, _ = chk.Ask(s.w.Leaf(gen.SerialOfWidth(s.rng, 12, false), []string{s.w.CRL.URL(p)}, nil))
+		l.others = append(l.others, p)
+	}
 	return l, nil
+}
+
+// targetDir is the LevelDB directory of the CRL under test (the first live store created).
+func (l *loaded) targetDir() string {
+	l.fac.mu.Lock()
+	defer l.fac.mu.Unlock()
+	for _, st := range l.fac.live {
+		if ls, ok := st.(*crlstore.LevelDbStore); ok {
+			return ls.LevelDBPath
+		}
+	}
+	return l.wd
 }
 
 type answer struct {
@@ -127,10 +148,15 @@ func (s *scn) askAll(l *loaded, serial *big.Int) []answer {
 	if len(l.cdp) > 0 {
 		locs = &core.CRLLocations{CRLDistributionPoints: l.cdp}
 	}
-	st, err := repo.IsRevoked(chain[0], locs)
-	out = append(out, answer{"Repository.IsRevoked", st != nil && st.Revoked, err})
-	st, err = l.chk.C.IsRevoked(chain[0], [][]*x509.Certificate{chain})
+	// repeated: the repository visits its CRLs in map order, which differs from call to call
+	// (only the repository-level call is repeated: the checker-level call re-attempts to open a
+	// store that cannot be opened, which costs 5 s of retries each time)
+	st, err := l.chk.C.IsRevoked(chain[0], [][]*x509.Certificate{chain})
 	out = append(out, answer{"CRLRevocationChecker.IsRevoked", st != nil && st.Revoked, err})
+	for rep := 0; rep < 6; rep++ {
+		st, err := repo.IsRevoked(chain[0], locs)
+		out = append(out, answer{"Repository.IsRevoked", st != nil && st.Revoked, err})
+	}
 	return out
 }
 
@@ -277,7 +303,7 @@ func main() {
 			stores := append([]crlstore.CRLStore(nil), l.fac.live...)
 			l.fac.mu.Unlock()
 			closed := 0
-			for _, st := range stores {
+			for _, st := range stores[:min(1, len(stores))] { // the first live store is the one under test
 				if ls, ok := st.(*crlstore.LevelDbStore); ok && ls.Db != nil {
 					_ = ls.Db.Close()
 					closed++
@@ -299,7 +325,7 @@ func main() {
 					return
 				}
 				l.chk.Stop()
-				dirs, _ := filepath.Glob(filepath.Join(l.wd, "*"))
+				dirs := []string{l.targetDir()}
 				patched := 0
 				issuer, _ := asn1parser.ParseRDNSequence(s.w.Int.Cert.RawSubject)
 				for _, d := range dirs {
@@ -360,7 +386,7 @@ func main() {
 			_ = l.chk.Restart()
 			_, _ = l.chk.Ask(s.w.Leaf(l.unl, l.cdp, nil))
 			l.chk.Stop()
-			files := ldbFiles(l.wd)
+			files := ldbFiles(l.targetDir())
 			if len(files) == 0 {
 				s.run.Inconclusive("F2: no table files on disk")
 				return
